@@ -642,7 +642,9 @@ class G:
                 vs = [n for n, d in self.scope_vars(cx).items() if d["t"] == pt_ and not d.get("counter") and d.get("kind") != "abi"]
                 if not vs:
                     vs = [self.new_var(pt_, cx, counter=False, plain=True)]
-                args.append(["ref", self.pick(vs)])
+                # hand a by-reference parameter of the current routine on to the callee (two-level forwarding) when possible
+                fwd = [n for n in vs if self.scope_vars(cx)[n].get("ref")]
+                args.append(["ref", self.pick(fwd) if fwd and self.chance(7) else self.pick(vs)])
             else:
                 args.append(self.U(o) if pt_ == "U" else self.B(o))
         node = ["call" if want != "N" else "callN", idx, args]
